@@ -350,7 +350,7 @@ def pool_rule(ctx):
 DENSITY_FIELDS = ("x", "log_likelihood", "log_prior", "log_q")
 
 
-def own_rule(ctx, only_module: str | None = None, rule: str = "C10.own", fields=None):
+def own_rule(ctx, only_module: str | None = None, rule: str = "C10.own", fields=None, strict: bool = False):
     """Who may write into an array: only its owner (rules/own.py).  *fields*: only writes through a local known to
     alias one of these attributes (or of unknown origin) are judged -- C10 cares about coordinates and cached
     densities, C02 about the stored weights."""
@@ -399,6 +399,8 @@ def own_rule(ctx, only_module: str | None = None, rule: str = "C10.own", fields=
                 continue  # an item of a container (e.g. an HDF5 dataset looked up by name): not an array of the caller's
             if fields is not None and origin is not None and origin not in fields:
                 continue
+            if strict and (origin is None or fields is None or origin not in fields):
+                continue  # strict: only writes known to go through one of the named attributes (a property that speaks about those attributes only)
             n_sinks += 1
             note = ""
             if st == own.BORROWED and o.sink_root.get(i) is not None:
